@@ -43,6 +43,10 @@ pub const TARGETS: &[(&str, &[&str])] = &[
     ("roundtrip", &["C03", "C04", "C05", "C06"]),
     ("rename", &["C07"]),
     ("text", &["C13", "C14"]),
+    // decision tapes: the fuzzer's bytes drive the generators of operation histories, hook scripts and walks
+    ("history", &["C08", "C09", "C10"]),
+    ("script", &["C15"]),
+    ("walk", &["C11"]),
 ];
 
 /// Run one input through the oracles of a target. With `panic_on_violation` (inside libFuzzer) a violation
@@ -78,6 +82,50 @@ pub fn run_target(target: &str, data: &[u8], panic_on_violation: bool) -> Ctx {
             c14::one(&mut ctx, data, &None, "fuzz");
             c14::one(&mut ctx, data, &Some(crate::model::msg::Name::from_labels(&[b"zone", b"example"])), "fuzz");
         }
+        "history" => {
+            use super::hist::{run_history, Mix, Prop};
+            let mut trng = Rng::from_tape(data);
+            // the first decision picks the mix (plain / error-provoking / near the 8192 limit)
+            let mix = match trng.below(4) {
+                0 => Mix { error_sixteenths: 8, max_steps: 16, big_start: false, near_limit: 0, want: Prop::C10 },
+                1 => Mix { error_sixteenths: 2, max_steps: 5, big_start: false, near_limit: 8192, want: Prop::C10 },
+                2 => Mix { error_sixteenths: 0, max_steps: 3, big_start: false, near_limit: 0, want: Prop::C09 },
+                _ => Mix { error_sixteenths: 1, max_steps: 24, big_start: false, near_limit: 0, want: Prop::C08 },
+            };
+            let r = guarded(u64::MAX / 2, || run_history(&mut trng, mix));
+            ctx.evaluations += 1;
+            match r {
+                Err(p) => {
+                    let kind = if p.is_budget() { "non-termination" } else { "panic" };
+                    for pid in ["C08", "C09", "C10"] {
+                        ctx.violation(pid, format!("history|{}|{}", kind, p.class()), format!("fuzz history: {} ({}:{})", p.msg, p.file, p.line), data);
+                    }
+                }
+                Ok(out) => {
+                    for fd in out.findings {
+                        // findings under the known-finding signatures cannot arise here (no aliasing phases)
+                        ctx.violation(fd.prop.id(), fd.class, format!("{} || history: {:?}", fd.detail, out.log.iter().filter(|l| !l.starts_with('#')).collect::<Vec<_>>()), &out.start);
+                    }
+                }
+            }
+        }
+        "script" => {
+            use crate::gen::valid::{gen_valid, Cfg};
+            let mut trng = Rng::from_tape(data);
+            let cfg = Cfg {
+                max_records: 6,
+                types: &[crate::model::msg::T_A, crate::model::msg::T_AAAA, crate::model::msg::T_NS, crate::model::msg::T_CNAME, crate::model::msg::T_MX, crate::model::msg::T_SOA, crate::model::msg::T_TXT, crate::model::msg::T_PTR, 99],
+                allow_header_targets: false,
+                alphabet: 5,
+                ..Default::default()
+            };
+            let v = gen_valid(&mut trng, &cfg);
+            c15::one(&mut ctx, &mut trng, &v.bytes, 8);
+        }
+        "walk" => {
+            let mut trng = Rng::from_tape(data);
+            c11::one_from_rng(&mut ctx, &mut trng);
+        }
         _ => {}
     }
     if panic_on_violation && !ctx.violations.is_empty() {
@@ -93,7 +141,7 @@ pub fn dump_corpus(dir: &str, seed: u64) -> std::io::Result<usize> {
     use crate::gen::hostile::{boundary, parse_input, N_BOUNDARY};
     use crate::gen::valid::{gen_valid, Cfg};
     let mut n = 0;
-    for t in ["parse_diff", "roundtrip", "rename", "text"] {
+    for t in ["parse_diff", "roundtrip", "rename", "text", "history", "script", "walk"] {
         std::fs::create_dir_all(format!("{}/{}", dir, t))?;
     }
     let mut put = |t: &str, b: &[u8]| -> std::io::Result<()> {
@@ -123,6 +171,13 @@ pub fn dump_corpus(dir: &str, seed: u64) -> std::io::Result<usize> {
         }
         put("text", crate::model::text::damaged_text(&mut rng).0.as_bytes())?;
         put("text", crate::model::text::name_to_text(&crate::model::text::text_name(&mut rng, 200), case % 2 == 0).as_bytes())?;
+        // decision tapes: random bytes (every tape is a valid sequence of decisions)
+        if case < 200 {
+            let l = [256usize, 1024, 3072][(case % 3) as usize];
+            put("history", &rng.bytes(l))?;
+            put("script", &rng.bytes(l))?;
+            put("walk", &rng.bytes(256))?;
+        }
     }
     Ok(n)
 }
